@@ -1713,6 +1713,21 @@ impl Engine {
                     "wake.lost-completion",
                     format!("{} (op#{}) completed but was never woken", t.name, t.id),
                 );
+                // C09: the last thing the kernel said was "interrupted" and
+                // the operation was never issued again.
+                let last = recs.last().unwrap();
+                let res = if last.zc { last.cqes.first() } else { last.cqes.last() }.map_or(0, |c| c.0);
+                if is_interrupt(res) && !ops::is_composite(t.kind) {
+                    violation(
+                        "restart.not-reissued",
+                        format!(
+                            "{} (op#{}): its last attempt ended with {} and it was never issued again although Ring::poll kept being called",
+                            t.name,
+                            t.id,
+                            errno_name(-res)
+                        ),
+                    );
+                }
             } else {
                 violation(
                     "wake.stuck",
